@@ -31,4 +31,6 @@ mod c03;
 #[cfg(kani)]
 mod c04;
 #[cfg(kani)]
+mod c05;
+#[cfg(kani)]
 mod cost_table;
